@@ -54,3 +54,28 @@ Fixpoint tree (fuel : nat) (ds de : str) (tokens : list token) (cursor : nat)
 Definition parse_tree (ds de : str) (tokens : list token) : res (list part) :=
   '(_, parts, _) <- tree (2 * length tokens + 2) ds de tokens 0 [] [] ;;
   Ok parts.
+
+(** All elements of a tree, at every depth, in document order. *)
+Fixpoint elements_of (p : part) : list (element * token * token) :=
+  match p with
+  | PText _ => []
+  | PElem el st et children => (el, st, et) :: flat_map elements_of children
+  end.
+Definition all_elements (parts : list part) : list (element * token * token) :=
+  flat_map elements_of parts.
+
+(** Induction principle for the nested inductive [part]. *)
+Fixpoint part_ind' (P : part -> Prop)
+         (HT : forall t, P (PText t))
+         (HE : forall el st et ch, Forall P ch -> P (PElem el st et ch))
+         (p : part) : P p :=
+  match p with
+  | PText t => HT t
+  | PElem el st et ch =>
+    HE el st et ch
+       ((fix go (l : list part) : Forall P l :=
+           match l with
+           | [] => Forall_nil P
+           | c :: l' => Forall_cons c (part_ind' P HT HE c) (go l')
+           end) ch)
+  end.
